@@ -70,6 +70,32 @@ static inline int qpSolve(const QProb &p, std::vector<double> &x, const std::vec
     return 1;
 }
 
+// Chains x_0 + g_0 <= x_1, x_1 + g_1 <= x_2, ... (scale 1, inequalities only): the optimum is a weighted isotonic regression
+// (pool adjacent violators, exact, O(n)) of the targets d_i - (g_0 + ... + g_{i-1}).
+static inline bool isChain(const QProb &p) {
+    size_t n = p.d.size();
+    if (n < 2 || p.cs.size() != n - 1) return false;
+    for (size_t k = 0; k + 1 < n; k++) if (p.cs[k].l != (int)k || p.cs[k].r != (int)k + 1 || p.cs[k].eq) return false;
+    for (double s : p.s) if (s != 1) return false;
+    return true;
+}
+static inline int chainOptimum(const QProb &p, std::vector<double> &x) {
+    size_t n = p.d.size();
+    std::vector<double> G(n, 0);
+    for (size_t i = 1; i < n; i++) G[i] = G[i - 1] + p.cs[i - 1].g;
+    struct Blk { double wsum, wtsum; size_t cnt; };
+    std::vector<Blk> st;
+    for (size_t i = 0; i < n; i++) {
+        Blk b{p.w[i], p.w[i] * (p.d[i] - G[i]), 1};
+        while (!st.empty() && st.back().wtsum / st.back().wsum > b.wtsum / b.wsum) { b.wsum += st.back().wsum; b.wtsum += st.back().wtsum; b.cnt += st.back().cnt; st.pop_back(); }
+        st.push_back(b);
+    }
+    x.assign(n, 0);
+    size_t i = 0;
+    for (auto &b : st) for (size_t k = 0; k < b.cnt; k++, i++) x[i] = b.wtsum / b.wsum + G[i];
+    return i == n;
+}
+
 static inline double qpCost(const QProb &p, const std::vector<double> &x) {
     double c = 0;
     for (size_t i = 0; i < x.size(); i++) c += p.w[i] * (x[i] - p.d[i]) * (x[i] - p.d[i]);
